@@ -10,6 +10,52 @@ from ..report import Report
 from . import common as K
 
 
+def blocking_lock_escape(ctx, rep, rule):
+    """the receive lock of serve() is taken by a non-blocking try-acquire only; a helper that is handed the lock and may block on
+    it (acquire_lock(self._recvlock, wait_for_lock, timeout)) turns every waiter into a thread blocked on the lock itself: when
+    the receiver hands the lock over the waiter does not re-check its result - it goes straight into poll() for its whole
+    remaining timeout although its reply has just been dispatched. Returns True when such a hand-off was reported."""
+    f = ctx.func(K.CONN + ".serve")
+    locks = set(K.fields_constructed_with(ctx, K.CONN, {"Lock", "RLock"}))
+    found = False
+    for c in A.calls(f.node):
+        for i, a in enumerate(c.args):
+            fld = K.self_attr(a)
+            if fld not in locks:
+                continue
+            r = ctx.repo.resolve_name(f.module, A.call_name(c) or "")
+            if not r or r[0] != "func":
+                continue
+            # every definition of that helper (compat defines it per interpreter version): does it acquire its parameter with a
+            # blocking flag that is not the constant False at this call site?
+            defs = [fu for q, fu in ctx.repo.funcs.items() if fu.module is r[1].module and fu.name == r[1].name]
+            blocking = None
+            for fu in defs:
+                ps = A.params(fu.node)
+                if i >= len(ps):
+                    continue
+                for ac in A.calls(fu.node):
+                    if isinstance(ac.func, ast.Attribute) and ac.func.attr == "acquire" and isinstance(ac.func.value, ast.Name) and \
+                            ac.func.value.id == ps[i]:
+                        b = ac.args[0] if ac.args else None
+                        if b is None:
+                            blocking = "always"
+                        elif isinstance(b, ast.Name) and b.id in ps and ps.index(b.id) < len(c.args):
+                            v = ctx.try_fold(c.args[ps.index(b.id)], f.module, default="?")
+                            if v is not False:
+                                blocking = "when `%s` is true" % A.src(c.args[ps.index(b.id)])
+                        elif ctx.try_fold(b, fu.module, default="?") is not False:
+                            blocking = "always"
+            if blocking:
+                found = True
+                rep.ob(rule, "Connection.serve: the receive lock is only ever try-acquired (a waiter sleeps on the condition, never on "
+                       "the lock)", False,
+                       "`%s` hands self.%s to %s, which acquires it blocking (%s): a waiter blocked on the lock itself takes it the "
+                       "moment the receiver lets go and polls the channel for its whole remaining timeout, although the receiver "
+                       "has just dispatched the waiter's reply" % (A.src(c)[:70], fld, r[1].name, blocking), ctx.loc(c), kind="site")
+    return found
+
+
 def serve_slots(ctx):
     """(func, cfg, lock field, condition field, acquire edges, fail edges, release nodes, held region)"""
     f = ctx.func(K.CONN + ".serve")
@@ -269,3 +315,49 @@ def run(ctx, rep):
     H.bound_once(ctx, rep, "R13.10", "rpyc.core.async_.AsyncResult", ["_conn"],
                  "a waiter that saw 'not ready' calls self._conn.serve() next; if another thread publishes the reply in between and "
                  "drops the connection the waiter fails with AttributeError instead of getting its reply")
+    _close_only_on_eof(ctx, rep)
+
+
+def _close_only_on_eof(ctx, rep):
+    """R13.11: serve() tears the connection down (close -> _cleanup clears the pending-request table of EVERY thread) only for the
+    transport's end-of-stream signal. A wider handler closes a healthy connection because one thread's completion callback or
+    a nested request raised an unrelated OSError/TimeoutError - the other threads' outstanding requests are lost although the
+    peer answers them."""
+    rep.rule("R13.11", "serve() closes the connection only on the transport's EOFError: no wider handler around dispatch/receive "
+                       "calls close()")
+    import builtins as _b
+    f = ctx.func(K.CONN + ".serve")
+    rep.analysed(f)
+    n_h = 0
+    for h in A.walk(f.node):
+        if not isinstance(h, ast.ExceptHandler):
+            continue
+        closes = any(A.find_calls(st, "self.close") or A.find_calls(st, "self._cleanup") for st in h.body)
+        if not closes:
+            continue
+        n_h += 1
+        if h.type is None:
+            names = ["BaseException"]
+        else:
+            elts = h.type.elts if isinstance(h.type, ast.Tuple) else [h.type]
+            names = [A.dotted(e) or A.src(e) for e in elts]
+        wide = []
+        for nm in names:
+            base = nm.split(".")[-1]
+            cls_ = getattr(_b, base, None) if nm == base else None
+            if nm in ("socket.error", "select.error", "select_error", "IOError", "EnvironmentError", "socket.timeout"):
+                cls_ = OSError
+            if isinstance(cls_, type) and issubclass(cls_, EOFError):
+                continue
+            kc = ctx.repo.resolve_class(f.module, nm)
+            if kc is not None and any("EOFError" in [A.dotted(b) for b in k_.node.bases] for k_ in ctx.repo.mro(kc)):
+                continue
+            wide.append(nm)
+        rep.ob("R13.11", "Connection.serve: the handler `except %s` that closes the connection catches the end-of-stream signal only"
+               % (A.src(h.type) if h.type is not None else ""), not wide,
+               "EOFError" if not wide else
+               "the handler also catches %s: any such error escaping the dispatch of ONE message (a completion callback that fails "
+               "with FileNotFoundError, a nested request that times out - TimeoutError is an OSError) closes the connection and "
+               "clears every thread's pending requests, although the transport is healthy and the peer answers them" % wide,
+               ctx.loc(h), kind="site")
+    rep.floor("R13.11", "closing handlers in Connection.serve", n_h, 2)
